@@ -143,7 +143,11 @@ def channel_capacity_joint(dist, input_, output, marginal=False, rv_mode=None):
     marg, cdists = dist.condition_on(crvs=input_, rvs=output, rv_mode=rv_mode)
     cc, marg_opt = channel_capacity(cdists)
     if marginal:
+        base = marg.get_base()
+        marg = marg.copy(base='linear')
         marg.pmf = marg_opt
+        if base != 'linear':
+            marg.set_base(base)
         return cc, marg
     else:
         return cc
